@@ -1,4 +1,5 @@
 import NLV.Model.Trace
+import NLV.Model.Teardown
 import NLV.Driver.Util
 import NLV.Driver.Registrars
 /-! Driver for model D1.  Every observed event of the child's stream corresponds to exactly one visible action of the model
@@ -15,19 +16,32 @@ structure D where
   ents : List (Nat × Ent) := []            -- observed trace number ↦ entity
   w : Option W := some {}                  -- registrars' grammar state
   n : Nat := 0
+  closed : Bool := false                   -- model D1t: the plugin context has exited (`h close …`)
+  main : Option Ent := none
+
+/-- one step of model D1t (`Teardown.rstep`): model D1's step, refused once the context has exited unless it is the end of a
+trace or a write of an entity without a trace -/
+def tstep (d : D) (e : Ent) (a : Act) : Option Trace.St :=
+  (Teardown.rstep { tr := d.s, closed := d.closed, main := d.main } (.act e a)).map (·.tr)
+
+def close (d : D) (m : Option Ent) : D × String :=
+  if !d.ok then (d, "reject:earlier") else
+  match Teardown.rstep { tr := d.s, closed := d.closed, main := d.main } (.close m) with
+  | none => ({ d with ok := false }, "reject:close-not-enabled")
+  | some r => ({ d with closed := r.closed, main := r.main }, "ok")
 
 def entOf (d : D) (t : Nat) : Option Ent := (d.ents.find? fun e => e.1 = t).map (·.2)
 
 def hidden (d : D) (e : Ent) (a : Act) : D × String :=
   if !d.ok then (d, "reject:earlier") else
-  match Trace.step d.s e a with
+  match tstep d e a with
   | none => ({ d with ok := false }, "reject:hidden-step-not-enabled")
   | some s' => if s'.out.length = d.s.out.length then ({ d with s := s' }, "ok") else ({ d with ok := false }, "reject:hidden-step-emitted")
 
 def observe (d : D) (e : Ent) (ev : Ev) (a : Act) : D × String :=
   if !d.ok then (d, "reject:earlier") else
   let w' := d.w.bind fun w => wstep w ev
-  match Trace.step d.s e a with
+  match tstep d e a with
   | none => ({ d with ok := false, n := d.n + 1 }, "reject:model")
   | some s' =>
     if s'.out.drop d.s.out.length == [ev] then
@@ -45,6 +59,10 @@ def handle (d : D) (ws : List String) : D × String :=
     | _, _ => (d, "bad-op"))
   | ["h", "trace", th, ta] => (match th.toNat?, optNat ta with
     | some th, some ta => hidden d { thread := th, task := ta } .drawTrace
+    | _, _ => (d, "bad-op"))
+  | ["h", "close", th, ta] =>
+    if th = "-" then close d none else (match th.toNat?, optNat ta with
+    | some th, some ta => close d (some { thread := th, task := ta })
     | _, _ => (d, "bad-op"))
   | ["h", "call", t, f, l, fr, evk] => (match t.toNat?, f.toNat?, l.toNat?, fr.toNat?, evk.toNat? with
     | some t, some f, some l, some fr, some evk => (match entOf d t with
